@@ -1210,11 +1210,11 @@ func fetchPeerAuthentications(
 		}
 		return labels.Instance(sel.MatchLabels).SubsetOf(matchLabels)
 	}))
-	// Mesh-wide policies live in the root namespace and must not have a selector. When the workload is
-	// itself in the root namespace, these are already covered by the fetch above.
+	// Mesh-wide policies live in the root namespace and must not select workloads (no selector, or one without labels).
+	// When the workload is itself in the root namespace, these are already covered by the fetch above.
 	if rootNamespace := meshCfg.GetRootNamespace(); ns != rootNamespace {
 		rootAuths := peerAuthsByNs.Fetch(ctx, rootNamespace, krt.FilterGeneric(func(a any) bool {
-			return a.(*securityclient.PeerAuthentication).Spec.Selector == nil
+			return !peerAuthnSelectsWorkloads(a.(*securityclient.PeerAuthentication))
 		}))
 		auths = append(auths, rootAuths...)
 	}
